@@ -59,7 +59,7 @@ CHECKS = {
              text="Original and transformed problems (feature / group / within-group / task / sample permutations, stacking, scaling of y and alpha, rescaling a feature with its weight) are solved and TLC judges the mapped solutions.", ref="6 C15", note=REL_NOTE),
  "C16": dict(tech="relation catalogue Relations.tla[Family=C16] (11 penalty families x solvers/estimators x storage x intercept) with the critical strength computed independently (optimal unpenalised part first); RelTrace facts alpha_max_eq, null, null_unpenalised_optimal, nonnull",
              text="The critical alpha of the documented objective is computed by the oracle (intercept and zero-weight features optimised first); TLC judges the library's alpha_max against it, exact zeros and an optimal unpenalised part just above it, and a non-zero coefficient just below it.", ref="6 C16", note=REL_NOTE),
- "C18": dict(tech="TLA+ history model Purity.tla (TLC -simulate + permanent sentinel histories) executed one process per history, every fit compared with the same fit alone in a fresh process; RelTrace facts inputs_untouched, refit_ok, same_as_fresh, alive; solver-level twin (same solver object solves twice, every user array byte-compared, result against a fresh solver: resolve_same_as_fresh, refilled_same_as_fresh, solver_params_untouched, resolve_history_same_as_fresh) with its design model SolverObject.tla (2 design configs hold, 3 variants refuted: history on the object, parameter clamped on the object, cache keyed by identity)",
+ "C18": dict(tech="TLA+ history model Purity.tla (TLC -simulate + permanent sentinel histories) executed one process per history, every fit compared with the same fit alone in a fresh process; RelTrace facts inputs_untouched, refit_ok, same_as_fresh, alive; solver-level twin (same solver object solves twice, every user array byte-compared, result against a fresh solver: resolve_same_as_fresh, refilled_same_as_fresh, solver_params_untouched, resolve_history_same_as_fresh) with its design model SolverObject.tla (2 design configs hold, 3 variants refuted: history on the object, parameter clamped on the object, cache keyed by identity; inductive invariant by Apalache in the thorough tier) and trace validation SolverObjectTrace.tla: the recorded solve / refill / solve sequence of every solver object replayed through the actions of SolverObject.tla (clause solver_object_trace)",
              text="Histories of fits, paths, set_params, clone / deepcopy / pickle of estimators and of bare datafit / penalty instances over estimators sharing compiled classes and data of different dtype / storage; TLC judges byte-identity of inputs, success of every fit and equality with fresh-process results.", ref="6 C18",
              note="Trusted: process isolation (one interpreter per history), tobytes() equality. Quick tier: 14 random histories + 10 sentinels (each history costs a full numba JIT)."),
 }
